@@ -429,6 +429,9 @@ class Evaluator:
             peel = self._peel_loop(st, state, func)
             if peel is not None:
                 return peel
+            rec = self._while_as_recursion(st, state, func)
+            if rec is not None:
+                return rec
             s2 = state.fork()
             self._havoc_assigned(st.body, s2, "while", line)
             return [(s2, "fall", None, line)]
@@ -468,6 +471,65 @@ class Evaluator:
             return [(state, "fall", None, line)]
         self.unknowns.append((func.qname, line, type(st).__name__))
         return [(state, "fall", None, line)]
+
+    def _while_as_recursion(self, st: ast.While, state: State, func: Func):
+        """`def f(p): while c: BODY  ; TAIL`  where the loop is the first thing f does and BODY re-binds only parameters: running the loop once
+        more from the top is calling f again with the new parameter values (tail recursion written as iteration).  One pass through BODY is
+        executed: paths that `break` (or fail the test) go on to TAIL, paths that reach the end of BODY return f(new values)."""
+        node = func.node
+        if st.orelse or func.is_generator or func.cls is not None:
+            return None
+        body = list(node.body)
+        if body and isinstance(body[0], ast.Expr) and isinstance(body[0].value, ast.Constant) and isinstance(body[0].value.value, str):
+            body = body[1:]
+        lead = []
+        for x in body:
+            if x is st:
+                break
+            lead.append(x)
+        else:
+            return None
+        for x in lead:
+            # only logging / assertions may come first
+            if isinstance(x, ast.Assert):
+                continue
+            if isinstance(x, ast.Expr) and isinstance(x.value, ast.Call) and isinstance(x.value.func, ast.Attribute) \
+                    and isinstance(x.value.func.value, ast.Name) and x.value.func.value.id in ("logger", "logging"):
+                continue
+            return None
+        a = node.args
+        if a.vararg or a.kwarg or a.kwonlyargs:
+            return None
+        params = [x.arg for x in a.posonlyargs + a.args]
+        loop_targets = set()
+        assigned = set()
+        for n in ast.walk(ast.Module(body=st.body, type_ignores=[])):
+            if isinstance(n, (ast.For, ast.comprehension)):
+                loop_targets |= _target_names(n.target)
+            elif isinstance(n, ast.Name) and isinstance(n.ctx, ast.Store):
+                assigned.add(n.id)
+            elif isinstance(n, (ast.FunctionDef, ast.Lambda, ast.While)):
+                return None
+        if not (assigned - loop_targets) <= set(params):
+            return None
+        # the parameters still hold the caller's values here (nothing before the loop assigns)
+        outs = []
+        for s0, c in self.eval(st.test, state, func):
+            c = self.as_cond(c)
+            if c != TRUE:
+                outs.append((s0.assume(self.negate(c)) if c != FALSE else s0, "fall", None, st.lineno))
+            if c == FALSE:
+                continue
+            s1 = s0 if c == TRUE else s0.assume(c)
+            for stt, status, val, ln in self.exec_block(st.body, s1.fork(), func):
+                if status == "break":
+                    outs.append((stt, "fall", None, ln))
+                elif status in ("fall", "continue"):
+                    args = tuple(stt.env.get(p_, var(p_)) for p_ in params)
+                    outs.append((stt, "return", ("recurse", func.qname, args, ()), ln))
+                else:
+                    outs.append((stt, status, val, ln))
+        return outs
 
     def _peel_loop(self, st: ast.While, state: State, func: Func):
         """`while isinstance(x, C): x = x.attr`  ->  x = peel(x0, C, attr), and afterwards not isinstance(x, C)."""
@@ -832,13 +894,19 @@ class Evaluator:
         exits = [o for o in body_outs if o[1] in ("return", "raise")]
         breaks = [o for o in body_outs if o[1] == "break"]
         normals = [o for o in body_outs if o[1] in ("fall", "continue")]
+        leaves = []
+        if st.orelse and breaks:
+            # for ... else: whether the loop was left by `break` decides if the else-suite runs, so a break is a way OUT of the loop here
+            # (like return), continuing after the whole statement without the else-suite
+            leaves, breaks = breaks, []
         outs = []
         member = ("iter-elem", pat, it)
         # search-loop exits: "for some element of the iterable the body reaches return/raise"
-        for stt, status, val, ln in exits:
+        for stt, status, val, ln in exits + leaves:
             extra = stt.conds[len(base_conds):]
             s = State(self._exit_env(s0, before, stt, normals + breaks, st.target), s0.conds + (member,) + extra, stt.notes)
-            outs.append((s, status, val, ln))
+            outs.append((s, "fall" if status == "break" else status, val, ln))
+        exits = exits + leaves
         # fall-through state: accumulate effects of normal iterations
         after = s0.fork()
         changed: dict[str, list[tuple[tuple, Term]]] = {}
